@@ -89,6 +89,9 @@ def compute(sysd, case, flags):
     out['vib'] = float(gcall(m.vibration_amplitude))
     out['com'] = float(gcall(m.tracer_diffusivity_center_of_mass, dimensions=3))
     out['com_all'] = float(gcall(gcall(traj.metrics).tracer_diffusivity_center_of_mass, dimensions=3))  # all species, mass-weighted
+    # a two-species selection, requested in another order than the atoms are stored
+    sel2 = gcall(traj.filter, [others[0], 'Li'])
+    out['com_pair'] = float(gcall(gcall(sel2.metrics).tracer_diffusivity_center_of_mass, dimensions=3))
     out['density'] = float(gcall(m.particle_density))
     out['dist'] = np.asarray(gcall(traj.filter('Li').distances_from_base_position))
     # grids
@@ -284,14 +287,14 @@ def run(case):
     # (a diffusivity or an amplitude spread that is pure round-off is legal)
     edge2 = float(np.sum(A['matrix'] ** 2, axis=1).max())
     scale = {'tracer': edge2 * 1e-20 / (6 * T * A['dt']), 'vib': math.sqrt(edge2), 'density': 0.0}
-    scale['com'] = scale['com_all'] = scale['tracer']
+    scale['com'] = scale['com_all'] = scale['com_pair'] = scale['tracer']
     # the vibration amplitude splits the speed signal at its sign changes: with a (near-)zero speed the split, and hence the
     # value, is decided by round-off, so it is only compared when every speed is clearly non-zero
     sp = np.diff(a['dist'], axis=1, prepend=0.0)
     vib_ok = not tie and not bool(np.any(np.abs(sp) < 1e-9 * math.sqrt(edge2)))
     if not vib_ok:
         flags.add('vibration-amplitude-skipped-zero-speed')
-    for key in (('density',) if tie else (('tracer', 'com', 'com_all', 'vib', 'density') if vib_ok else ('tracer', 'com', 'com_all', 'density'))):
+    for key in (('density',) if tie else (('tracer', 'com', 'com_all', 'com_pair', 'vib', 'density') if vib_ok else ('tracer', 'com', 'com_all', 'com_pair', 'density'))):
         if abs(a[key] - b[key]) > 1e-9 * max(abs(a[key]), abs(b[key])) + 1e-9 * scale[key]:
             fail('metric-' + key, f'{a[key]!r} vs {b[key]!r}')
     dexp = np.empty_like(a['dist'])
